@@ -387,6 +387,8 @@ theorem device_spec {d : Device} {st0 st1 st2 : DevState} {a b c e gs : Nat}
     st2.input = (a - gs, b - gs) ∧ st2.output = (c - gs, e - gs) ∧ st2.hasCoe = st0.hasCoe ∧
     b - a = windowLenSpec d st0.hasCoe .input ∧ e - c = windowLenSpec d st0.hasCoe .output ∧
     rangesLen (smRanges d st2.regs .input) = b - a ∧ rangesLen (smRanges d st2.regs .output) = e - c ∧
+    (∀ x ∈ enumFrom 0 d.sms, ∀ dir : Dir, x.2.usageType = dir.smType →
+        (st2.regs.sm x.1).len = (smBitsSpec d st0.hasCoe dir x.1 + 7) / 8) ∧
     (∀ k, (st2.regs.fmmu k).enable = true →
         (st2.regs.fmmu k).startBit = 0 ∧ (st2.regs.fmmu k).endBit = 7 ∧ (st2.regs.fmmu k).physBit = 0) ∧
     (FmmuAvail d st0.hasCoe → SharedContig d st2.regs st0.hasCoe →
@@ -440,11 +442,26 @@ theorem device_spec {d : Device} {st0 st1 st2 : DevState} {a b c e gs : Nat}
     simp only [Dir.other, DevState.window] at this
     rw [this]; simpa [DevState.window] using i6
   have wO : st2.output = (c - gs, e - gs) := by simpa [DevState.window] using o6
-  refine ⟨i5, o5, by omega, by omega, wI, wO, by rw [o8, i8], ?_, ?_, ?_, ?_, ?_⟩
+  refine ⟨i5, o5, by omega, by omega, wI, wO, by rw [o8, i8], ?_, ?_, ?_, ?_, ?_, ?_⟩
   · rw [windowLenSpec_eq_jobs i1 i2]; omega
   · rw [windowLenSpec_eq_jobs o1 o2]; omega
   · rw [rI, rangesLen_jobWindows]; omega
   · rw [rO, rangesLen_jobWindows]; omega
+  · -- every process-data sync manager holds exactly its own byte length
+    intro x hx dir hxt
+    cases dir with
+    | input =>
+      have hm : x ∈ dirFilter .input (enumFrom 0 d.sms) := List.mem_filter.2 ⟨hx, by simpa using hxt⟩
+      rw [← i1] at hm
+      obtain ⟨j, hj, rfl⟩ := List.mem_map.1 hm
+      rw [smI j hj]
+      exact i2 j hj
+    | output =>
+      have hm : x ∈ dirFilter .output (enumFrom 0 d.sms) := List.mem_filter.2 ⟨hx, by simpa using hxt⟩
+      rw [← o1] at hm
+      obtain ⟨j, hj, rfl⟩ := List.mem_map.1 hm
+      rw [smO j hj]
+      exact o2 j hj
   · -- alignment and exact mapping
     cases hc : st0.hasCoe with
     | false =>
@@ -755,12 +772,9 @@ theorem bind_mode {α β : Type} {x x' : Out α} {f f' : α → Out β} {b : β}
   obtain ⟨a, ha, hb⟩ := bind_eq_ok.1 h
   exact bind_eq_ok.2 ⟨a, hx a ha, hf a hb⟩
 
-theorem lenBytes_mode (m : Mode) {bits v : Nat} (h : lenBytes .checked bits = .ok v) : lenBytes m bits = .ok v :=
-  bind_mode (fun _ ha => arith_mode m ha) (fun _ hb => hb) h
-
 theorem incrementByteAligned_mode (m : Mode) {off bits v : Nat} (h : incrementByteAligned .checked off bits = .ok v) :
     incrementByteAligned m off bits = .ok v :=
-  bind_mode (fun _ ha => lenBytes_mode m ha) (fun _ hb => arith_mode m hb) h
+  arith_mode m h
 
 theorem sumMappings_mode (m : Mode) : ∀ (l : List Nat) (acc v : Nat),
     sumMappings .checked acc l = .ok v → sumMappings m acc l = .ok v := by
@@ -799,16 +813,11 @@ theorem eepromSmBitLen_mode (m : Mode) (os : List (Nat × Nat)) (i : Nat) : ∀ 
     · rw [if_neg hp] at h ⊢
       exact ih acc v h
 
-theorem writeFmmuConfig_mode (m : Mode) {r : Regs} {bits fi off ty : Nat} {cfg : SmReg} {p : Regs × Nat}
-    (h : writeFmmuConfig .checked r bits fi off ty cfg = .ok p) : writeFmmuConfig m r bits fi off ty cfg = .ok p := by
+theorem writeFmmuConfig_mode (m : Mode) {r : Regs} {fi off ty : Nat} {cfg : SmReg} {p : Regs × Nat}
+    (h : writeFmmuConfig .checked r fi off ty cfg = .ok p) : writeFmmuConfig m r fi off ty cfg = .ok p := by
   unfold writeFmmuConfig at h ⊢
-  refine bind_mode (fun a ha => ?_) (fun a hb => ?_) h
-  · by_cases he : (r.fmmu fi).enable = true
-    · simp only [he, if_true] at ha ⊢
-      exact bind_mode (fun _ ha2 => arith_mode m ha2) (fun _ hb2 => hb2) ha
-    · simp only [he] at ha ⊢
-      exact ha
-  · exact bind_mode (fun _ ha2 => incrementByteAligned_mode m ha2) (fun _ hb2 => hb2) hb
+  refine bind_mode (fun a ha => ha) (fun a hb => ?_) h
+  exact bind_mode (fun _ ha2 => arith_mode m ha2) (fun _ hb2 => hb2) hb
 
 theorem coeLoop_mode (m : Mode) (d : Device) (dir : Dir) : ∀ (L : List (Nat × SmDesc)) (r : Regs) (off : Nat)
     (res : Regs × Nat), coeLoop .checked d dir L r off = .ok res → coeLoop m d dir L r off = .ok res := by
@@ -827,7 +836,7 @@ theorem coeLoop_mode (m : Mode) (d : Device) (dir : Dir) : ∀ (L : List (Nat ×
       | some pdos =>
         simp only [hc] at h ⊢
         refine bind_mode (fun _ ha => coeSmBitLen_mode m _ _ _ _ ha) (fun bits hb => ?_) h
-        refine bind_mode (fun _ ha => lenBytes_mode m ha) (fun lb hb2 => ?_) hb
+        refine bind_mode (fun _ ha => ha) (fun lb hb2 => ?_) hb
         by_cases hpos : bits > 0
         · simp only [hpos, if_true] at hb2 ⊢
           cases hp : position dir.fmmuType d.fmmuUsage with
@@ -852,7 +861,7 @@ theorem eepromLoop_mode (m : Mode) (d : Device) (dir : Dir) (pdos : List Pdo) : 
     · rw [if_pos hty] at h ⊢; exact ih _ _ _ h
     · rw [if_neg hty] at h ⊢
       refine bind_mode (fun _ ha => eepromSmBitLen_mode m _ _ _ _ _ ha) (fun bits hb => ?_) h
-      refine bind_mode (fun _ ha => lenBytes_mode m ha) (fun lb hb2 => ?_) hb
+      refine bind_mode (fun _ ha => ha) (fun lb hb2 => ?_) hb
       exact bind_mode (fun _ ha => writeFmmuConfig_mode m ha) (fun p hb3 => ih _ _ _ hb3) hb2
 
 theorem configureFmmus_mode (m : Mode) {d : Device} {st : DevState} {off gs : Nat} {dir : Dir}
